@@ -8,9 +8,7 @@ import panelmat
 from panelmat import fr
 
 
-def exact(x):
-    n, d = float(x).as_integer_ratio()
-    return rat(Fraction(n, d))
+exact = panelmat.exact
 
 
 def assembly_groups(rng, n_cases):
@@ -74,23 +72,7 @@ def run(tier, seed, build):
                              extra_observed=extra, extra_violations=crashes)
 
 
-ANGLES = {0.0: [0, 1], 90.0: [1, 0], 45.0: [1, 1], -45.0: [-1, 1]}
-
-
-def pd_from_panel(p, model=None):
-    """panel description (exact rationals) of a real Panel object whose inputs are exactly representable"""
-    ex = lambda x: exact(0.0 if x is None else x)
-    inv = {v: k for k, v in panelmat.MODELS.items()}
-    mo = model or inv[p.model]
-    plyts = p.plyts if p.plyts else [p.plyt] * len(p.stack)
-    props = p.laminaprops if p.laminaprops else [p.laminaprop] * len(p.stack)
-    fl = [[[ex(getattr(p, "%s%s%s" % (d, nm, ax))) for nm in ("1t", "1r", "2t", "2r")] for ax in ("x", "y")]
-          for d in "uvw"]
-    return dict(model=mo, a=ex(p.a), b=ex(p.b), r=ex(p.r if mo == "cpanel" else 0.0), sina=rat(0), cosa=rat(1),
-                m=int(p.m), n=int(p.n), fl=fl,
-                stack=[dict(dir=ANGLES[float(t)], t=ex(th), mat=[ex(v) for v in pr])
-                       for t, th, pr in zip(p.stack, plyts, props)],
-                off=ex(p.offset), y1=rat(0), y2=ex(p.b), mu=ex(p.mu if p.mu is not None else 1.0), Ncte=[rat(0)] * 3)
+pd_from_panel = panelmat.pd_from_panel
 
 
 def bay_groups(rng, n_cases):
